@@ -433,3 +433,13 @@ PROPERTIES["C08"]["explanation"] += (" Source level (P08): " + PIPE_EXPL + "a ca
     "'Entry can dereference nil => reported' (solver query per program) and 'convention-respecting callee + proper check => no diagnostic'.")
 PROPERTIES["C08"]["bounds"]["quick"] += "; source level: all 440 callee x caller programs of the P08 family"
 PROPERTIES["C08"]["outside"] = [o for o in PROPERTIES["C08"]["outside"] if not o.startswith("classification of return expressions")] + ["ok-returning functions and named results at source level; return shapes and caller forms beyond the P08 family"] + PIPE_OUTSIDE
+
+PROPERTIES["C13"]["runs"] += [
+    dict(pkg=".", files=["root/zz_verif_c13pp.go"], entry="Harness_C13_Pretty", quick=dict(params=dict(CODES=5)), thorough=dict(params=dict(CODES=11)), args=dict(sample_every=29, max_samples=24)),
+]
+PROPERTIES["C13"]["explanation"] += (" Pretty printing: the REAL PrettyPrintErrorMessage with the real regexp engine (executed from SSA) on messages assembled from NilAway's own message shapes - flow header, 1-2 steps quoting code "
+    "fragments in backticks (fragments with %, $, backslash, quotes, parentheses), nilability words, the quoted position list of grouped diagnostics - must give back the plain message once colour sequences and the error prefix are stripped "
+    "(enumeration of message shapes: matching regular expressions over symbolic strings is out of solver reach).")
+PROPERTIES["C13"]["bounds"]["quick"] += "; pretty printing: 720 message shapes (4 first steps x 5 code fragments, optional second step, 0-2 quoted positions)"
+PROPERTIES["C13"]["bounds"]["thorough"] += "; pretty printing: 5544 message shapes (11 code fragments)"
+PROPERTIES["C13"]["outside"] = [o for o in PROPERTIES["C13"]["outside"] if "retty" not in o] + ["pretty printing of messages outside the enumerated shapes (arbitrary code text)"]
